@@ -96,7 +96,7 @@ theorem json_text_roundtrip_partial (env : Env) (cur : Lang) (e : Expr) (h : (to
 /-- evaluating the printed source rebuilds the expression EXACTLY (state and history) when the language of the ROOT is
     the current one (it cannot be printed), every constituent is what its own call history makes of its constructor's
     result (`WFS`) and the option values have a `repr` the model covers (`SrcOK`: no `datetime`). Lemmata and tag names
-    are unrestricted (escaped since a4c65f5) except for a carriage return, which `quoteSource` prints raw, sub-expressions of the other language carry `lang=` (09cd540).
+    are unrestricted (escaped since a4c65f5 / 2b9e5f9), sub-expressions of the other language carry `lang=` (09cd540).
     Text level: `parseSrc (toSource e) = progOf e` (`parseSrc_toSource`); evaluation level: `build (progOf e) = e`. -/
 theorem source_roundtrip_partial (env : Env) (cur : Lang) (e : Expr) (h : WFS env e) (hs : SrcOK e) (hl : e.lang = cur) :
     routeSource env cur e = .ok (e, 0) := by
@@ -242,7 +242,7 @@ example : WFJ envNone exS := by
     subst hkv
     refine ⟨[.bool false, .bool true], by decide +kernel, ?_⟩
     rw [if_neg (by decide)]
-    decide +kernel
+    exact ⟨by decide +kernel, fun i h => by cases h⟩
   · -- Q("a").cap(False)
     refine ⟨by decide, by decide, [], [], by rfl, ?_⟩
     refine Replays.feature (s "cap") (.bool false) spCap _ (by decide +kernel) (by decide +kernel) (by simp)
@@ -256,8 +256,7 @@ example : WFS envNone exS := by
 example : SrcOK exS := by
   have repr : ∀ x : Str, (∀ c ∈ x, isNonPrintable c = false ∨ c = '\n' ∨ c = '\r' ∨ c = '\t') → ReprOK x :=
     fun _ h => h
-  have nocr : ∀ x : Str, (∀ c ∈ x, c ≠ '\r') → NoCR x := fun _ h => h
-  refine ⟨by decide, ?_, ⟨by decide, nocr _ (by decide), ?_⟩, ⟨by decide, nocr _ (by decide), ?_⟩, trivial⟩
+  refine ⟨by decide, ?_, ⟨by decide, ?_⟩, ⟨by decide, ?_⟩, trivial⟩
   · intro c hc
     simp at hc
     rcases hc with rfl | rfl
@@ -284,7 +283,7 @@ example : CanonJ envNone exS := by
     subst hkv
     refine ⟨[.bool false, .bool true], by decide +kernel, ?_⟩
     rw [if_neg (by decide)]
-    decide +kernel
+    exact ⟨by decide +kernel, fun i h => by cases h⟩
   · refine ⟨by decide, by decide, [], [], by rfl, ?_, by decide +kernel⟩
     refine Replays.feature (s "cap") (.bool false) spCap _ (by decide +kernel) (by decide +kernel) (by simp)
       (Or.inl (by decide +kernel)) ?_ (by decide +kernel) Replays.nil
